@@ -587,6 +587,17 @@ func numsList(n int, step, start int, sep string) string {
 	return b.String()
 }
 
+func distinctList(prefix string, n int) string {
+	var b strings.Builder
+	for i := 0; i < n; i++ {
+		if i > 0 {
+			b.WriteByte(' ')
+		}
+		fmt.Fprintf(&b, "%s%d", prefix, i)
+	}
+	return b.String()
+}
+
 func growthFamilies() []growth {
 	g := func(name, prod string, recursive bool, gen func(n int) string) growth {
 		return growth{name, prod, recursive, func(n int) []byte { return []byte(gen(n)) }}
@@ -629,6 +640,29 @@ func growthFamilies() []growth {
 		// n-element lists
 		g("flags-list", "flag-list", false, func(n int) string { return "* FLAGS (" + strings.TrimSuffix(rep("kw ", n), " ") + ")\r\n" }),
 		g("fetch-flags-list", "flag-list", false, func(n int) string { return "* 1 FETCH (FLAGS (" + strings.TrimSuffix(rep("kw ", n), " ") + "))\r\n" }),
+		// pairwise distinct elements (a per-element scan of what was read so far only costs when they differ)
+		g("flags-list-distinct", "flag-list", false, func(n int) string { return "* FLAGS (" + distinctList("kw", n) + ")\r\n" }),
+		g("fetch-flags-distinct", "flag-list", false, func(n int) string { return "* 1 FETCH (FLAGS (" + distinctList("kw", n) + "))\r\n" }),
+		g("permanentflags-distinct", "flag-list", false, func(n int) string {
+			return "* OK [PERMANENTFLAGS (" + distinctList("kw", n) + ")] ok\r\n"
+		}),
+		g("fetch-header-fields-distinct", "header-list", false, func(n int) string {
+			return "* 1 FETCH (BODY[HEADER.FIELDS (" + distinctList("H", n) + ")] \"x\")\r\n"
+		}),
+		g("body-params-distinct", "body-fld-param", false, func(n int) string {
+			var b strings.Builder
+			for i := 0; i < n; i++ {
+				fmt.Fprintf(&b, `"k%d" "v" `, i)
+			}
+			return `* 1 FETCH (BODYSTRUCTURE ("TEXT" "PLAIN" (` + strings.TrimSuffix(b.String(), " ") + `) NIL NIL "7BIT" 1 1))` + "\r\n"
+		}),
+		g("metadata-entries-distinct", "metadata", false, func(n int) string {
+			var b strings.Builder
+			for i := 0; i < n; i++ {
+				fmt.Fprintf(&b, `/a%d "v" `, i)
+			}
+			return "* METADATA INBOX (" + strings.TrimSuffix(b.String(), " ") + ")\r\n"
+		}),
 		g("fetch-atts", "msg-att", false, func(n int) string { return "* 1 FETCH (" + strings.TrimSuffix(rep("UID 1 ", n), " ") + ")\r\n" }),
 		g("fetch-responses", "fetch", false, func(n int) string { return rep("* 1 FETCH (UID 1)\r\n", n) }),
 		g("fetch-section-parts", "section", false, func(n int) string { return "* 1 FETCH (BODY[" + strings.TrimSuffix(rep("1.", n), ".") + "] \"x\")\r\n" }),
